@@ -7,21 +7,46 @@ which re-runs the same (simulator, parameters, seed) jobs in another interpreter
 other heap addresses) and prints the flat encoding of every returned tree.
 
 A *job* is a small JSON-able dict; every argument object (namespaces, species tree, gene-to-species map,
-pop sizes, the generator) is rebuilt from it for every run, so two runs never share a library object."""
+pop sizes, the generator) is rebuilt from it for every run, so two runs never share a library object --
+except in the *re-use* step of a job flagged "reuse", where the very same argument objects are handed to
+the simulator a second time (Call.invoke called again, see Call.reuse_setup)."""
 import json
 import os
 import random
+import re
 import sys
+import warnings
 
 from .. import ref, gen, bridge
 
 SIMS = ("birth_death_tree", "fast_birth_death_tree", "uniform_pure_birth_tree", "pure_kingman_tree",
-        "mean_kingman_tree", "constrained_kingman_tree", "contained_coalescent_tree", "coalesce_nodes")
+        "mean_kingman_tree", "constrained_kingman_tree", "contained_coalescent_tree", "containing_tree_kingman",
+        "coalesce_nodes")
 BD_SIMS = ("birth_death_tree", "fast_birth_death_tree", "uniform_pure_birth_tree")
 KINGMAN_SIMS = ("pure_kingman_tree", "mean_kingman_tree")
-GENE_SIMS = ("constrained_kingman_tree", "contained_coalescent_tree")
-NS_CFGS = ("none", "empty", "fewer", "exact", "more", "tlabels")
+GENE_SIMS = ("constrained_kingman_tree", "contained_coalescent_tree", "containing_tree_kingman")
+# the first six are the historical configurations (directed jobs index them), the others are label classes:
+#  tlower    lower-case look-alikes of the generated "T<k>" labels in a (default) case-insensitive namespace
+#  tmixed    mixed-case look-alikes
+#  sensitive the same labels in a case-SENSITIVE namespace (there "t1" and "T1" are different labels)
+#  blanks    look-alikes with blanks / underscores around or inside
+#  random    labels drawn from gen.random_label (special characters, non-ASCII), any count
+#  dups      a supplied namespace in which two taxa share a label (legal in DendroPy)
+#  selfcase  labels that differ only in case among themselves
+NS_CFGS = ("none", "empty", "fewer", "exact", "more", "tlabels",
+           "tlower", "tmixed", "sensitive", "blanks", "random", "dups", "selfcase")
 STRATEGIES = ("random_uniform", "fixed_per_population", "node_attribute")
+MAPPINGS = ("create", "dict", "dict-own-ns", "fn", "attr")
+LEGACY = {"birth_death_tree": "birth_death", "uniform_pure_birth_tree": "uniform_pure_birth",
+          "pure_kingman_tree": "pure_kingman", "mean_kingman_tree": "mean_kingman",
+          "constrained_kingman_tree": "constrained_kingman", "contained_coalescent_tree": "contained_coalescent"}
+
+
+def name(job):
+    """the simulator name used in violation keys / events."""
+    if job["sim"] == "containing_tree_kingman":
+        return "ContainingTree.%s_contained_kingman" % job.get("method", "simulate")
+    return job["sim"]
 
 
 # ------------------------------------------------------------------------------------------
@@ -38,23 +63,62 @@ def _pick_n(rng, tier, lo=2):
 
 
 def _pick_rates(rng):
-    birth = rng.choice([0.1, 0.5, 1.0, 1.0, 2.0, 7.5, rng.uniform(0.05, 5.0)])
-    frac = rng.choice([0.0, 0.0, 0.1, 0.5, 0.5, 0.8, 0.9, 0.9, rng.uniform(0.0, 0.9)])
-    return birth, birth * frac
+    birth = rng.choice([0.1, 0.5, 1.0, 1.0, 2.0, 7.5, rng.uniform(0.05, 5.0), 1, 2, 1e-6, 1e6])
+    frac = rng.choice([0.0, 0.0, 0.1, 0.5, 0.5, 0.8, 0.9, 0.9, rng.uniform(0.0, 0.9), 0, 0.99])
+    if isinstance(birth, int):
+        death = birth // 2 if frac else 0          # integer rates: (1, 0), (2, 1), (2, 0)
+    else:
+        death = birth * frac
+    return birth, death
+
+
+def _ultra(spec, r, steps):
+    memo = {}
+    for n in ref.postorder(spec):
+        if not n[3]:
+            memo[id(n)] = 0
+        else:
+            memo[id(n)] = max(memo[id(c)] for c in n[3]) + r.choice(steps)
+    for n in ref.preorder(spec):
+        for c in n[3]:
+            c[2] = memo[id(n)] - memo[id(c)]
 
 
 def species_spec(job):
-    """the (ultrametric, dyadic) species / population tree of a gene-tree job, with per-edge pop sizes;
-    returns (spec, {id(spec node): pop size or None})."""
+    """the species / population tree of a gene-tree job, with per-edge pop sizes; returns
+    (spec, {id(spec node): pop size or None}).  job["lens"]: "ultra" (ultrametric, dyadic, every edge > 0),
+    "ultra0" (ultrametric, zero-length edges allowed), "int" (ultrametric, integer lengths), "nonultra"
+    (any dyadic lengths incl. 0: tips at different depths).  job["rootlen"]: length of the ROOT edge
+    (None / 0.0 / > 0).  job["inttaxa"]: some internal species nodes carry a taxon ("I<k>", never given
+    genes).  All lengths are dyadic or integral, so the divergence times of the oracle are exact."""
     r = random.Random("species/%s" % job["tseed"])
     s = job["nsp"]
     names = ["S%d" % i for i in range(s)]
     spec = gen.random_spec(r, s, p_poly=job.get("ppoly", 0.0), p_unary=job.get("punary", 0.0), names=names)
-    gen.ultrametric_lengths(spec, r, dyadic=True)
+    lens = job.get("lens", "ultra")
+    if lens == "ultra":
+        gen.ultrametric_lengths(spec, r, dyadic=True)
+    elif lens == "ultra0":
+        _ultra(spec, r, [0.0, 0.0, 0.125, 0.5, 1.0, 2.0])
+    elif lens == "int":
+        _ultra(spec, r, [1, 1, 2, 3])
+    elif lens == "nonultra":
+        for n in ref.preorder(spec):
+            n[2] = r.choice([0.0, r.randint(1, 64) / 8.0, r.randint(1, 64) / 8.0, r.randint(1, 4)])
+    else:
+        raise ValueError(lens)
+    spec[2] = job.get("rootlen")
+    if job.get("inttaxa"):
+        k = 0
+        for n in ref.preorder(spec):
+            if n[3]:
+                if r.random() < 0.6:
+                    n[0] = "I%d" % k
+                k += 1
     scale = job.get("scale", 1)
     pops = {}
     for n in ref.preorder(spec):
-        if n is not spec and n[2] is not None:
+        if n[2] is not None:
             n[2] = n[2] * scale
         mode = job.get("pop", "default")
         if mode == "default":
@@ -66,48 +130,99 @@ def species_spec(job):
     return spec, pops
 
 
+def species_labels(spec):
+    """(leaf species labels in spec order, labels of internal nodes carrying a taxon)"""
+    leaves, inner = [], []
+    for n in ref.preorder(spec):
+        if not n[3]:
+            leaves.append(n[0])
+        elif n[0] is not None:
+            inner.append(n[0])
+    return leaves, inner
+
+
 def genes_per_species(job):
     r = random.Random("genes/%s" % job["tseed"])
     if job.get("genes_fixed"):
         return dict(("S%d" % i, job["genes_fixed"]) for i in range(job["nsp"]))
-    return dict(("S%d" % i, r.randint(1, job.get("gmax", 5))) for i in range(job["nsp"]))
+    gps = dict(("S%d" % i, r.randint(1, job.get("gmax", 5))) for i in range(job["nsp"]))
+    if job.get("gzero") and job["nsp"] > 1:       # some (never all) species without genes
+        for i in range(1, job["nsp"]):
+            if r.random() < 0.4:
+                gps["S%d" % i] = 0
+    return gps
+
+
+def _species_fields(job, rng, tier):
+    smax = 8 if tier == "quick" else 30
+    job["nsp"] = rng.choice([1, 2, 2, 3, 4, 5, 6, smax, rng.randint(2, smax)])
+    job["tseed"] = rng.randrange(10 ** 6)
+    job["ppoly"] = rng.choice([0.0, 0.0, 0.3])
+    job["punary"] = rng.choice([0.0, 0.0, 0.15])
+    job["scale"] = rng.choice([1, 1, 64, 1024])
+    job["pop"] = rng.choice(["default", "const", "random", "random"])
+    if job["pop"] == "const":
+        job["popsize"] = rng.choice([1, 2.0, 50, 1000, 10000, 0])
+    job["lens"] = rng.choice(["ultra", "ultra", "ultra0", "int", "nonultra"])
+    job["rootlen"] = rng.choice([None, None, 0.0, 0.5, 3])
+    job["inttaxa"] = rng.random() < 0.25
 
 
 def make_job(rng, tier, sim=None):
-    sim = sim or rng.choice(SIMS[:7] * 3 + SIMS[7:])
+    sim = sim or rng.choice(SIMS[:8] * 3 + SIMS[8:])
     job = {"sim": sim, "seed": rng.randrange(20000 if tier != "quick" else 200)}
+    job["rngform"] = rng.choice(["fresh", "fresh", "used", "state"])
     if sim in ("birth_death_tree", "fast_birth_death_tree"):
         job["n"] = _pick_n(rng, tier, lo=1)
         job["birth"], job["death"] = _pick_rates(rng)
         if sim == "birth_death_tree" and job["n"] > 120 and job["death"] > 0.6 * job["birth"]:
             job["n"] = rng.randint(60, 120)      # quadratic simulator: keep the heavy corner bounded
+        if job["death"] > 0.95 * job["birth"]:
+            job["n"] = min(job["n"], 8)          # death/birth = 0.99: many restarts per success
         job["ns"] = rng.choice(NS_CFGS)
         job["attr"] = rng.random() < 0.8
-        if sim == "birth_death_tree" and rng.random() < 0.2:
+        if sim == "birth_death_tree" and rng.random() < 0.2 and isinstance(job["birth"], float) \
+                and job["death"] <= 0.9 * job["birth"]:
             job["bsd"] = 0.02 * job["birth"]
             if job["death"] >= 0.3 * job["birth"]:
                 job["dsd"] = 0.02 * job["birth"]
+        r = rng.random()
+        if r < 0.15:
+            job["alias"] = rng.choice(["ntax", "ntax+assign"])
+        if sim == "birth_death_tree" and rng.random() < 0.1:
+            job["legacy"] = True
+        if rng.random() < 0.15:
+            job["extattr"] = "gone"
+        if rng.random() < 0.1:
+            job["norepeat"] = True
+        if rng.random() < 0.25:
+            job["reuse"] = True
+            job["n2"] = job["n"] + rng.choice([0, 1, 4, job["n"]])
+            if job["death"] > 0.95 * job["birth"]:
+                job["n2"] = min(job["n2"], 8)
     elif sim == "uniform_pure_birth_tree":
         job["n"] = _pick_n(rng, tier, lo=1)
-        job["birth"] = rng.choice([1.0, 0.1, 3.0, rng.uniform(0.05, 5.0)])
+        job["birth"] = rng.choice([1.0, 0.1, 3.0, rng.uniform(0.05, 5.0), 1, 1e-6, 1e6])
+        job["nslabels"] = rng.choice(["a", "a", "random", "selfcase"])
     elif sim in KINGMAN_SIMS:
         job["n"] = _pick_n(rng, tier, lo=1)
-        job["pop"] = rng.choice([1, 1, 2, 1.0, 0.5, 37.5, 100, 10000, rng.randint(1, 10000)])
+        job["pop"] = rng.choice([1, 1, 2, 1.0, 0.5, 37.5, 100, 10000, rng.randint(1, 10000), None, 0, 1e-6, 1e9])
+        job["nslabels"] = rng.choice(["a", "a", "random", "selfcase"])
     elif sim in GENE_SIMS:
-        smax = 8 if tier == "quick" else 30
-        job["nsp"] = rng.choice([1, 2, 2, 3, 4, 5, 6, smax, rng.randint(2, smax)])
-        job["tseed"] = rng.randrange(10 ** 6)
-        job["ppoly"] = rng.choice([0.0, 0.0, 0.3])
-        job["punary"] = rng.choice([0.0, 0.0, 0.15])
-        job["scale"] = rng.choice([1, 1, 64, 1024])
-        job["pop"] = rng.choice(["default", "const", "random", "random"])
-        if job["pop"] == "const":
-            job["popsize"] = rng.choice([1, 2.0, 50, 1000, 10000])
+        _species_fields(job, rng, tier)
         if sim == "contained_coalescent_tree":
             job["gmax"] = rng.choice([1, 2, 3, 5])
-            job["mapping"] = rng.choice(["create", "dict", "dict-own-ns"])
+            job["mapping"] = rng.choice(MAPPINGS)
             job["defpop"] = rng.choice([1, 1, 5, 400])
             job["attrname"] = rng.choice(["pop_size", "pop_size", "ne", None])
+        elif sim == "containing_tree_kingman":
+            job["gmax"] = rng.choice([1, 2, 3, 5])
+            job["mapping"] = rng.choice(MAPPINGS + ("rawdict",))
+            job["defpop"] = rng.choice([1, 1, 5, 400])
+            job["attrname"] = rng.choice(["pop_size", "pop_size", "ne"])
+            job["method"] = rng.choice(["simulate", "simulate", "embed"])
+            job["expected"] = rng.random() < 0.2
+            job["fit"] = rng.random() < 0.3
         else:
             job["strategy"] = rng.choice(STRATEGIES)
             job["ngenes"] = rng.choice([None, 1, 2, 3, 5, rng.randint(1, 3 * job["nsp"])])
@@ -118,16 +233,67 @@ def make_job(rng, tier, sim=None):
             job["gmax"] = 5
             job["decorate"] = rng.random() < 0.3
             job["treelist"] = rng.random() < 0.3
+            job["labelfn"] = rng.choice(["own", "own", "default"])
+            job["gzero"] = job["strategy"] == "node_attribute" and rng.random() < 0.3
+            job["ngattr"] = rng.choice(["num_genes", "num_genes", "k"])
+            job["psattr"] = rng.choice(["pop_size", "pop_size", "ne"])
     elif sim == "coalesce_nodes":
         job["n"] = _pick_n(rng, tier, lo=1)
-        job["pop"] = rng.choice([None, 1, 2.5, 100, 10000])
-        job["period"] = rng.choice([None, None, 0.0, 0.125, 1.0, 40.0, 1e6])
+        job["pop"] = rng.choice([None, 1, 2.5, 100, 10000, 0])
+        job["period"] = rng.choice([None, None, 0.0, 0.125, 1.0, 40.0, 1e6, 2])
         job["expected"] = rng.random() < 0.25
+    if sim not in ("birth_death_tree", "fast_birth_death_tree"):
+        if rng.random() < 0.25:
+            job["rngpass"] = "pos"
+        if sim in LEGACY and rng.random() < 0.08:
+            job["legacy"] = True
+        if sim != "coalesce_nodes" and rng.random() < 0.25:
+            job["reuse"] = True
     return job
 
 
 # ------------------------------------------------------------------------------------------
+# the generator handed to a simulator
+def make_rng(job):
+    """a generator in the state the job describes: "fresh" = random.Random(seed); "used" = seeded and then
+    drawn from (gauss() leaves a cached second variate in the state); "state" = a differently seeded
+    generator whose state was set from a used one with getstate()/setstate().  Equal jobs give equal states."""
+    form = job.get("rngform", "fresh")
+    r = random.Random(job["seed"])
+    if form == "fresh":
+        return r
+    r.gauss(0, 1)
+    r.random()
+    r.randint(0, 9)
+    if form == "used":
+        return r
+    if form == "state":
+        other = random.Random(job["seed"] + 977)
+        other.setstate(r.getstate())
+        return other
+    raise ValueError(form)
+
+
+# ------------------------------------------------------------------------------------------
 # fresh arguments + the real call
+def _lookalikes(n, labels):
+    return labels[:max(1, min(len(labels), n - 1))]
+
+
+def _labels(kind, n, key):
+    if kind == "a":
+        return ["a%d" % i for i in range(n)]
+    if kind == "random":
+        r = random.Random("labels/%s" % key)
+        return [gen.random_label(r) for _ in range(n)]
+    if kind == "selfcase":
+        out = []
+        for i in range(n):
+            out.append(("ab%d" if i % 2 == 0 else "AB%d") % (i // 2))
+        return out
+    raise ValueError(kind)
+
+
 def _bd_namespace(job):
     import dendropy
     cfg, n = job["ns"], job["n"]
@@ -143,57 +309,190 @@ def _bd_namespace(job):
         return dendropy.TaxonNamespace(["a%d" % i for i in range(n + 3)])
     if cfg == "tlabels":       # labels that collide with the generated "T<k>" labels
         return dendropy.TaxonNamespace(["T2", "x y", "T1", "T%d" % (n + 1), "T5"][:max(1, min(5, n - 1))])
+    if cfg == "tlower":
+        return dendropy.TaxonNamespace(_lookalikes(n, ["t2", "x y", "t1", "t%d" % (n + 1), "t5", "t3"]))
+    if cfg == "tmixed":
+        return dendropy.TaxonNamespace(_lookalikes(n, ["t1", "T3", "t4", "T2", "t%d" % n]))
+    if cfg == "sensitive":
+        return dendropy.TaxonNamespace(_lookalikes(n, ["t1", "T2", "t3", "T1", "t2"]), is_case_sensitive=True)
+    if cfg == "blanks":
+        return dendropy.TaxonNamespace(_lookalikes(n, [" T1", "T2 ", "T_3", "T 4", "_T5", "T1_"]))
+    if cfg == "random":
+        r = random.Random("nslabels/%s/%s" % (n, job["seed"]))
+        k = r.choice([max(1, n // 2), n, n + 2])
+        return dendropy.TaxonNamespace([gen.random_label(r) for _ in range(k)])
+    if cfg == "dups":
+        return dendropy.TaxonNamespace(_lookalikes(n, ["a", "a", "b", "T1", "T1", "b"]))
+    if cfg == "selfcase":
+        return dendropy.TaxonNamespace(_lookalikes(n, ["a1", "A1", "t2", "T2", "b", "B"]))
     raise ValueError(cfg)
 
 
 class Call(object):
-    """one prepared simulator call: .fn_owner/.fn_name (looked up at call time so that hooks are hit),
-    .args/.kwargs (without rng), and what the oracle needs (.aux)."""
+    """one prepared simulator call: .owner/.name (looked up at call time so that hooks are hit),
+    .args/.kwargs (without rng), what the oracle needs (.aux), and how the generator is handed over:
+    ``pos_order`` = [(keyword, default)] of the parameters that precede ``rng`` in the signature after
+    ``args`` (None when the simulator only takes the generator by keyword).
 
-    def __init__(self, owner, name, args, kwargs, aux):
+    invoke(rng)                 rng given -> passed by keyword, or positionally when the job says so
+    invoke(None)                the ``rng`` argument is omitted
+    invoke(None, spell_none=1)  ``rng=None`` is passed explicitly"""
+
+    def __init__(self, owner, name, args, kwargs, aux, pos_order=None, positional=False, before=None,
+                 quiet=False):
         self.owner, self.name, self.args, self.kwargs, self.aux = owner, name, args, kwargs, aux
+        self.pos_order, self.positional, self.before, self.quiet = pos_order, positional, before, quiet
 
-    def invoke(self, rng):
+    def invoke(self, rng, spell_none=False):
         kw = dict(self.kwargs)
-        if rng is not None:
-            kw["rng"] = rng
-        return getattr(self.owner, self.name)(*self.args, **kw)
+        args = list(self.args)
+        if self.before is not None:
+            self.before()
+        if rng is not None or spell_none:
+            if self.positional and self.pos_order is not None:
+                for key, default in self.pos_order:
+                    args.append(kw.pop(key, default))
+                args.append(rng)
+            else:
+                kw["rng"] = rng
+        fn = getattr(self.owner, self.name)
+        if not self.quiet:
+            return fn(*args, **kw)
+        from dendropy.utility import deprecate
+        with warnings.catch_warnings():
+            deprecate._initialize_deprecation_warnings()     # it inserts its own filter on first use
+            warnings.simplefilter("ignore")
+            return fn(*args, **kw)
+
+    def reuse_setup(self, job):
+        """called before the SAME argument objects are handed to the simulator a second time."""
+        if "n2" in job and job["sim"] in ("birth_death_tree", "fast_birth_death_tree"):
+            key = "ntax" if job.get("alias") else "num_extant_tips"
+            self.kwargs[key] = job["n2"]
+
+
+def _owner(job, default_owner):
+    """(owner module, attribute name, quiet): the legacy pass-through wrapper when the job asks for it."""
+    sim = job["sim"]
+    if job.get("legacy") and sim in LEGACY:
+        from dendropy.legacy import treesim as legacy_treesim
+        return legacy_treesim, LEGACY[sim], True
+    return default_owner, sim, bool(job.get("alias"))
+
+
+def _gene_mapping(job, sns, leaf_species, aux):
+    """the gene -> species TaxonNamespaceMapping (or raw dict) of a job; fills aux["g2s"]; returns
+    (mapping argument, domain namespace or None)."""
+    import dendropy
+    gps = genes_per_species(job)
+    by_label = dict((t.label, t) for t in sns)
+    g2s = {}
+    kind = job["mapping"]
+    if kind == "create":
+        counts = [gps.get(t.label, 0) for t in sns]      # taxa of internal species nodes get no genes
+        m = dendropy.TaxonNamespaceMapping.create_contained_taxon_mapping(
+            sns, counts, contained_taxon_label_separator="_")
+        for t in sns:
+            for k in range(gps.get(t.label, 0)):
+                g2s["%s_%d" % (t.label, k + 1)] = t.label
+        aux["g2s"] = g2s
+        return m, m.domain_taxon_namespace
+    md = {}
+    order = [(by_label[lbl], k) for lbl in leaf_species for k in range(gps[lbl])]
+    random.Random("gorder/%s" % job["tseed"]).shuffle(order)
+    gl = []
+    for t, k in order:
+        gt = dendropy.Taxon(label="g%s.%d" % (t.label, k))
+        md[gt] = t
+        gl.append(gt)
+        g2s[gt.label] = t.label
+    aux["g2s"] = g2s
+    if kind == "dict":
+        m = dendropy.TaxonNamespaceMapping(mapping_dict=md)
+        return m, m.domain_taxon_namespace
+    dns = dendropy.TaxonNamespace(gl)
+    if kind == "dict-own-ns":
+        m = dendropy.TaxonNamespaceMapping(mapping_dict=md, domain_taxon_namespace=dns, range_taxon_namespace=sns)
+    elif kind == "fn":
+        m = dendropy.TaxonNamespaceMapping(mapping_fn=lambda x: md[x], domain_taxon_namespace=dns,
+                                           range_taxon_namespace=sns)
+    elif kind == "attr":
+        for gt in gl:
+            gt.species_taxon = md[gt]
+        m = dendropy.TaxonNamespaceMapping(mapping_attr_name="species_taxon", domain_taxon_namespace=dns,
+                                           range_taxon_namespace=sns)
+    elif kind == "rawdict":
+        return md, dns
+    else:
+        raise ValueError(kind)
+    return m, dns
+
+
+def expected_default_labels(job, leaf_species):
+    """gene labels constrained_kingman_tree must hand out with its DEFAULT gene_node_label_fn
+    ("<species>_<two-digit index>"), as {label: species}; None for random_uniform (species free)."""
+    if job["strategy"] == "fixed_per_population":
+        return dict(("%s_%02d" % (s, k + 1), s) for s in leaf_species for k in range(job["ngenes"]))
+    if job["strategy"] == "node_attribute":
+        gps = genes_per_species(job)
+        return dict(("%s_%02d" % (s, k + 1), s) for s in leaf_species for k in range(gps[s]))
+    return None
 
 
 def prepare(job):
     import dendropy
     from dendropy.simulate import treesim
-    from dendropy.model import birthdeath, coalescent
+    from dendropy.model import birthdeath, coalescent, reconcile
     sim = job["sim"]
+    positional = job.get("rngpass") == "pos"
+    if sim == "rand_trees":
+        return RandTreesCall(treesim, job)
     if sim in ("birth_death_tree", "fast_birth_death_tree"):
-        kw = {"num_extant_tips": job["n"]}
+        kw = {("ntax" if job.get("alias") else "num_extant_tips"): job["n"]}
+        if job.get("alias") == "ntax+assign":
+            kw["assign_taxa"] = True
         ns = _bd_namespace(job)
         if ns is not None:
             kw["taxon_namespace"] = ns
         if not job.get("attr", True):
             kw["is_add_extinct_attr"] = False
+        if job.get("extattr"):
+            kw["extinct_attr_name"] = job["extattr"]
+        if job.get("norepeat"):
+            kw["repeat_until_success"] = False
         if sim == "birth_death_tree":
             if "bsd" in job:
                 kw["birth_rate_sd"] = job["bsd"]
             if "dsd" in job:
                 kw["death_rate_sd"] = job["dsd"]
-            return Call(treesim, sim, (job["birth"], job["death"]), kw, {"ns": ns})
-        return Call(birthdeath, sim, (job["birth"], job["death"]), kw, {"ns": ns})
+            owner, attr, quiet = _owner(job, treesim)
+        else:
+            owner, attr, quiet = birthdeath, sim, bool(job.get("alias"))
+        return Call(owner, attr, (job["birth"], job["death"]), kw, {"ns": ns}, quiet=quiet)
     if sim == "uniform_pure_birth_tree":
-        ns = dendropy.TaxonNamespace(["a%d" % i for i in range(job["n"])])
-        return Call(treesim, sim, (ns,), {"birth_rate": job["birth"]}, {"ns": ns})
+        ns = dendropy.TaxonNamespace(_labels(job.get("nslabels", "a"), job["n"], job["seed"]))
+        owner, attr, quiet = _owner(job, treesim)
+        return Call(owner, attr, (ns,), {"birth_rate": job["birth"]}, {"ns": ns},
+                    pos_order=[("birth_rate", 1.0)], positional=positional, quiet=quiet)
     if sim in KINGMAN_SIMS:
-        ns = dendropy.TaxonNamespace(["a%d" % i for i in range(job["n"])])
-        return Call(treesim, sim, (ns,), {"pop_size": job["pop"]}, {"ns": ns})
+        ns = dendropy.TaxonNamespace(_labels(job.get("nslabels", "a"), job["n"], job["seed"]))
+        owner, attr, quiet = _owner(job, treesim)
+        return Call(owner, attr, (ns,), {"pop_size": job["pop"]}, {"ns": ns},
+                    pos_order=[("pop_size", 1)], positional=positional, quiet=quiet)
     if sim == "coalesce_nodes":
         nodes = [dendropy.Node(label="n%d" % i) for i in range(job["n"])]
         kw = {"pop_size": job["pop"], "period": job["period"], "use_expected_tmrca": job["expected"]}
-        return Call(coalescent, sim, (), dict(kw, nodes=nodes), {"nodes": nodes})
+        return Call(coalescent, sim, (), dict(kw, nodes=nodes), {"nodes": nodes},
+                    pos_order=[("nodes", None), ("pop_size", None), ("period", None)], positional=positional)
     # gene tree inside a species tree
     spec, pops = species_spec(job)
-    sns = dendropy.TaxonNamespace(["S%d" % i for i in range(job["nsp"])])
+    leaf_species, inner_species = species_labels(spec)
+    sns = dendropy.TaxonNamespace(["S%d" % i for i in range(job["nsp"])] + inner_species)
     ptree = bridge.build_tree(spec, sns, True)
-    attr = "pop_size" if sim == "constrained_kingman_tree" else job.get("attrname", "pop_size")
+    if sim == "constrained_kingman_tree":
+        attr = job.get("psattr", "pop_size")
+    else:
+        attr = job.get("attrname", "pop_size")
     nodes = []           # (own spec node, live node), walked in parallel (build_tree keeps the child order)
     stack = [(spec, ptree.seed_node)]
     while stack:
@@ -205,54 +504,113 @@ def prepare(job):
             setattr(nd._edge, attr, pops[id(s)])
     aux = {"species": spec, "ptree": ptree}
     if sim == "contained_coalescent_tree":
-        gps = genes_per_species(job)
-        g2s = {}
-        if job["mapping"] == "create":
-            m = dendropy.TaxonNamespaceMapping.create_contained_taxon_mapping(
-                sns, [gps[t.label] for t in sns], contained_taxon_label_separator="_")
-            for t in sns:
-                for k in range(gps[t.label]):
-                    g2s["%s_%d" % (t.label, k + 1)] = t.label
-        else:
-            md = {}
-            order = [(t, k) for t in sns for k in range(gps[t.label])]
-            random.Random("gorder/%s" % job["tseed"]).shuffle(order)
-            gl = []
-            for t, k in order:
-                gt = dendropy.Taxon(label="g%s.%d" % (t.label, k))
-                md[gt] = t
-                gl.append(gt)
-                g2s[gt.label] = t.label
-            if job["mapping"] == "dict-own-ns":
-                m = dendropy.TaxonNamespaceMapping(mapping_dict=md, domain_taxon_namespace=dendropy.TaxonNamespace(gl),
-                                                   range_taxon_namespace=sns)
-            else:
-                m = dendropy.TaxonNamespaceMapping(mapping_dict=md)
-        aux["g2s"] = g2s
+        m, dns = _gene_mapping(job, sns, leaf_species, aux)
         kw = {"default_pop_size": job.get("defpop", 1)}
         if job.get("attrname", "pop_size") != "pop_size":
             kw["edge_pop_size_attr"] = job.get("attrname")
-        return Call(treesim, sim, (ptree, m), kw, aux)
+        owner, fname, quiet = _owner(job, treesim)
+        return Call(owner, fname, (ptree, m), kw, aux,
+                    pos_order=[("edge_pop_size_attr", "pop_size"), ("default_pop_size", 1)],
+                    positional=positional, quiet=quiet)
+    if sim == "containing_tree_kingman":
+        m, dns = _gene_mapping(job, sns, leaf_species, aux)
+        ct = reconcile.ContainingTree(ptree, contained_taxon_namespace=dns, contained_to_containing_taxon_map=m,
+                                      fit_containing_edge_lengths=bool(job.get("fit")))
+        aux["ct"] = ct
+        kw = {"default_pop_size": job.get("defpop", 1), "use_expected_tmrca": bool(job.get("expected"))}
+        if job.get("attrname", "pop_size") != "pop_size":
+            kw["edge_pop_size_attr"] = job.get("attrname")
+        return Call(ct, "%s_contained_kingman" % job.get("method", "simulate"), (), kw, aux,
+                    pos_order=[("edge_pop_size_attr", "pop_size"), ("default_pop_size", 1), ("label", None)],
+                    positional=positional)
     # constrained_kingman_tree
-    g2s = {}
+    aux["g2s"] = {}
+    aux["handed_out"] = []
+    before = None
+    kw = {"gene_sampling_strategy": job["strategy"], "decorate_original_tree": job["decorate"]}
+    if job.get("labelfn", "own") == "own":
+        def label_fn(sp_label, idx):
+            lbl = "%s_%02d" % (sp_label, idx)
+            aux["g2s"][lbl] = sp_label
+            aux["handed_out"].append(lbl)
+            return lbl
 
-    def label_fn(sp_label, idx):
-        lbl = "%s_%02d" % (sp_label, idx)
-        g2s[lbl] = sp_label
-        return lbl
-    kw = {"gene_sampling_strategy": job["strategy"], "gene_node_label_fn": label_fn,
-          "decorate_original_tree": job["decorate"]}
+        def before():        # the labels handed out by THIS call are the genes of this call
+            aux["g2s"] = {}
+            aux["handed_out"] = []
+        kw["gene_node_label_fn"] = label_fn
+    else:
+        aux["g2s"] = None
+        aux["expected_labels"] = expected_default_labels(job, leaf_species)
     if job["ngenes"] is not None:
         kw["num_genes"] = job["ngenes"]
+    aux["num_random"] = job["ngenes"] if job["ngenes"] is not None else len(leaf_species)
     if job["strategy"] == "node_attribute":
         gps = genes_per_species(job)
+        gattr = job.get("ngattr", "num_genes")
         for s, nd in nodes:
             if not s[3]:
-                nd.num_genes = gps[s[0]]
+                setattr(nd, gattr, gps[s[0]])
+        if gattr != "num_genes":
+            kw["num_genes_attr"] = gattr
+    if job.get("psattr", "pop_size") != "pop_size":
+        kw["pop_size_attr"] = job["psattr"]
     if job["treelist"]:
         kw["gene_tree_list"] = dendropy.TreeList()
-    aux["g2s"] = g2s
-    return Call(treesim, sim, (ptree,), kw, aux)
+    owner, fname, quiet = _owner(job, treesim)
+    return Call(owner, fname, (ptree,), kw, aux, pos_order=[("gene_tree_list", None)], positional=positional,
+                before=before, quiet=quiet)
+
+
+class RandTreesCall(object):
+    """treesim.rand_trees (vectorising wrapper) with birth_death_tree as model function; it returns a
+    generator, so the monitored window must span its consumption: ``mon`` (set by the property module) gets
+    its pre/post pair applied here by hand instead of through vf.mon.hooks."""
+
+    def __init__(self, treesim, job):
+        self.treesim, self.job, self.aux, self.mon = treesim, job, {"ns": None}, None
+        # the iterable-of-mappings form is a separate branch of rand_trees: own operation name in the keys
+        self.opname = "rand_trees(iterable-of-mappings)" if job["form"].startswith("list") else "rand_trees"
+        self.base = {"birth_rate": job["birth"], "death_rate": job["death"], "num_extant_tips": job["n"]}
+
+    def reuse_setup(self, job):
+        pass
+
+    def invoke(self, rng, spell_none=False):
+        mon = self.mon
+        if mon is None:
+            return self._invoke(rng)
+        snap = mon.mk_pre(self.opname)(None, (rng,), {})
+        mon.ctx.ev("hook:treesim.rand_trees:call")
+        try:
+            res = self._invoke(rng)
+            mon.ctx.ev("hook:treesim.rand_trees:return")
+            return res
+        finally:
+            if snap is not None:
+                mon.finish(snap)
+
+    def expected_count(self):
+        form = self.job["form"]
+        return self.job["reps"] * (2 if form.startswith("list") else 1)
+
+    def _invoke(self, rng):
+        form = self.job["form"]
+        ts = self.treesim
+        if form == "mapping":
+            mk = dict(self.base)
+        elif form == "mapping+rng":
+            mk = dict(self.base, rng=rng)
+        elif form == "list":             # iterable of mappings: n_replicates trees for each of them
+            mk = [dict(self.base), dict(self.base, num_extant_tips=self.job["n"])]
+        elif form == "list+rng":
+            mk = [dict(self.base, rng=rng), dict(self.base, rng=rng)]
+        else:
+            base = self.base
+
+            def mk(rep_idx, r):
+                return dict(base, rng=r)
+        return list(ts.rand_trees(rng, ts.birth_death_tree, mk, self.job["reps"]))
 
 
 # ------------------------------------------------------------------------------------------
@@ -287,6 +645,8 @@ def encode_result(job, result):
     sim = job["sim"]
     if sim == "coalesce_nodes":
         return [flat(bridge.extract(nd)) for nd in result]
+    if sim == "rand_trees":
+        return [flat(bridge.extract(t)) for t in result]
     if sim == "constrained_kingman_tree":
         result = result[0]
     return [flat(bridge.extract(result))]
@@ -298,9 +658,9 @@ def run_plain(job, mode="explicit"):
     call = prepare(job)
     try:
         if mode == "explicit":
-            res = call.invoke(random.Random(job["seed"]))
+            res = call.invoke(make_rng(job))
         else:
-            dendropy.utility.GLOBAL_RNG.seed(job["seed"])
+            dendropy.utility.GLOBAL_RNG.setstate(make_rng(job).getstate())
             res = call.invoke(None)
         return encode_result(job, res), None
     except Exception as e:      # reported by the parent as a difference
